@@ -385,6 +385,45 @@ func runC11Reject(env *Env, rc *RunCtx) {
 func runC11Mutants(env *Env, rc *RunCtx) {
 	t := rc.CaseTape
 	cfg := genTyped(t)
+	// declaration-level mutation: one class is declared a second time, with one of
+	// its relations missing from one of the two declarations
+	if t.Bool(1, 5) {
+		var cands []int
+		for i, n := range cfg.NS {
+			plain := 0
+			for _, r := range n.Rels {
+				if r.Rewrite == nil {
+					plain++
+				}
+			}
+			if plain > 0 {
+				cands = append(cands, i)
+			}
+		}
+		if len(cands) > 0 {
+			i := cands[t.Choose(len(cands))]
+			orig := cfg.NS[i]
+			var plainIdx []int
+			for j, r := range orig.Rels {
+				if r.Rewrite == nil {
+					plainIdx = append(plainIdx, j)
+				}
+			}
+			drop := plainIdx[t.Choose(len(plainIdx))]
+			cp := &NSDef{Name: orig.Name}
+			for j, r := range orig.Rels {
+				if j != drop {
+					cp.Rels = append(cp.Rels, r)
+				}
+			}
+			if t.Bool(1, 2) {
+				cfg.NS = append(cfg.NS, cp) // the reduced declaration comes last
+			} else {
+				cfg.NS = append(append(append([]*NSDef{}, cfg.NS[:i]...), cp), cfg.NS[i:]...) // ... or first
+			}
+			rc.Count("mutated_class-declared-twice", 1)
+		}
+	}
 	src := cfg.ToOPL()
 	toks := oplTokens(src)
 	// expression-level mutations: a whole leaf "this . ... ( ... )" is replaced by,
@@ -472,9 +511,29 @@ func runC11Mutants(env *Env, rc *RunCtx) {
 		return
 	}
 	served, _ := nm2.Namespaces(env.Ctx)
-	if len(served) != len(nn) {
-		rc.Rec.Skipped = "not-served"
-		return
+	{
+		// every declared name is served (a name declared twice is served once)
+		sn := map[string]bool{}
+		for _, n := range served {
+			sn[n.Name] = true
+		}
+		pn := map[string]bool{}
+		for _, n := range nn {
+			pn[n.Name] = true
+		}
+		if len(sn) != len(pn) {
+			rc.Rec.Skipped = "not-served"
+			return
+		}
+		for k := range pn {
+			if !sn[k] {
+				rc.Rec.Skipped = "not-served"
+				return
+			}
+		}
+		if len(served) != len(nn) {
+			rc.Count("accepted_with_a_name_declared_twice", 1)
+		}
 	}
 	env.SetLimitsCached(Limits{Depth: 5, Width: 100})
 	// a store that conforms to the parsed types
